@@ -58,6 +58,17 @@ def case_strategy():
     return case()
 
 
+def parse_groups(text, root):
+    groups, cur = [], None
+    for ln in text.splitlines():
+        if re.match(r"^Match \d+:", ln):
+            cur = set()
+            groups.append(cur)
+        elif ln.startswith("- ") and cur is not None:
+            cur.add(os.path.relpath(ln[2:].strip(), root))
+    return groups
+
+
 def check_case(case, res: Result, cli=False):
     from codebasin import CodeBase, report
 
@@ -89,6 +100,20 @@ def check_case(case, res: Result, cli=False):
             extra = set(got) - expected
             kind = "group-missing" if lost and not extra else "group-invented" if extra and not lost else "groups-differ"
             vs.append(make_violation(f"api:{kind}", case, sorted(sorted(s) for s in expected), sorted(sorted(s) for s in got)))
+        # the printed report, written to a stream of the caller's choice
+        import contextlib
+        import io
+
+        buf, leaked = io.StringIO(), io.StringIO()
+        try:
+            with contextlib.redirect_stdout(leaked):
+                report.duplicates(cb, stream=buf)
+        except Exception as e:
+            vs.append(make_violation(f"report:exception:{type(e).__name__}", case, "report printed", f"{type(e).__name__}: {e}"))
+        else:
+            gotp = {frozenset(g) for g in parse_groups(buf.getvalue(), root)}
+            if gotp != expected or leaked.getvalue().strip():
+                vs.append(make_violation("report:stream-content-differs", case, sorted(sorted(s) for s in expected), {"in stream": sorted(sorted(s) for s in gotp), "on stdout instead": leaked.getvalue()[:200]}))
         if cli:
             with open(os.path.join(root, "db.json"), "w") as f:
                 f.write("[]")
@@ -104,14 +129,7 @@ def check_case(case, res: Result, cli=False):
                 vs.append(make_violation("cli:exit", case, 0, [rc, out[-300:], err[-300:]]))
             else:
                 sec = out.split("Duplicates", 1)[-1]
-                groups, cur = [], None
-                for ln in sec.splitlines():
-                    if re.match(r"^Match \d+:", ln):
-                        cur = set()
-                        groups.append(cur)
-                    elif ln.startswith("- ") and cur is not None:
-                        cur.add(os.path.relpath(ln[2:].strip(), root))
-                gotc = {frozenset(g) for g in groups}
+                gotc = {frozenset(g) for g in parse_groups(sec, root)}
                 if gotc != expected or ("No duplicates found." in sec) != (not expected):
                     vs.append(make_violation("cli:groups-differ", case, sorted(sorted(s) for s in expected), sorted(sorted(s) for s in gotc)))
             res.labels["cli"] += 1
